@@ -421,6 +421,52 @@ def main():
                 out["errors"].append({"kind": "legacy-registration", "program": nm, "error": "raised although the traced positions have rules: %r" % (ex,)})
         except Exception as ex:
             out["errors"].append({"kind": "legacy-registration", "program": nm, "error": "raised %r" % (ex,)})
+    # graphs with CONTAINER nodes: a tuple / list / dict used whole (dense container cotangent) and through entries (sparse
+    # ones), the pull-back called several times with the same cotangent object (what jacobian-style drivers do): every
+    # call returns the path sum, and the caller's cotangent is untouched
+    from autograd.builtins import tuple as _atup, list as _alist, dict as _adict
+    a3, b3 = onp.array([1.0, 2.0]), onp.array([3.0, 4.0])
+    cgraphs = [
+        ("t + (2*t[0],)", lambda t: t + (2.0 * t[0],), (a3, b3),
+         lambda g: (g[0] + 2.0 * g[2], g[1] * 1.0), lambda: (onp.array([1.0, 1.0]), onp.array([10.0, 10.0]), onp.array([100.0, 100.0]))),
+        ("(3*t[1],) + t, then the first entry again", lambda t: _atup(((3.0 * t[1],) + t)) + (t[0] * t[0],), (a3, b3),
+         lambda g: (g[1] + 2.0 * a3 * g[3], g[2] + 3.0 * g[0]), lambda: tuple(onp.array([float(10 ** k_), float(10 ** k_)]) for k_ in range(4))),
+        ("list: l + [l[1] * l[0]]", lambda l: l + [l[1] * l[0]], [a3, b3],
+         lambda g: [g[0] + b3 * g[2], g[1] + a3 * g[2]], lambda: [onp.array([1.0, 2.0]), onp.array([10.0, 20.0]), onp.array([100.0, 200.0])]),
+        ("dict rebuilt from entries and used whole", lambda d: _adict({"p": d["a"] * 2.0, "q": d, "r": d["a"] + d["b"]}), {"a": a3, "b": b3},
+         lambda g: {"a": 2.0 * g["p"] + g["q"]["a"] + g["r"], "b": g["q"]["b"] + g["r"]},
+         lambda: {"p": onp.array([1.0, 1.0]), "q": {"a": onp.array([10.0, 10.0]), "b": onp.array([100.0, 100.0])}, "r": onp.array([1000.0, 1000.0])}),
+    ]
+
+    def _same_c(u, v):
+        if isinstance(u, dict):
+            return isinstance(v, dict) and set(u) == set(v) and all(_same_c(u[k_], v[k_]) for k_ in u)
+        if isinstance(u, (tuple, list)):
+            return type(u) is type(v) and len(u) == len(v) and all(_same_c(p_, q_) for p_, q_ in zip(u, v))
+        return onp.shape(u) == onp.shape(v) and bool(onp.all(onp.asarray(u) == onp.asarray(v)))
+
+    def _copy_c(u):
+        if isinstance(u, dict):
+            return {k_: _copy_c(v_) for k_, v_ in u.items()}
+        if isinstance(u, (tuple, list)):
+            return type(u)(_copy_c(v_) for v_ in u)
+        return onp.array(u)
+    for nm, fc, xc, wantf, mkg in cgraphs:
+        dist("container-graph")
+        try:
+            vjp_c, _ = _mv3(fc, xc)
+            gc = mkg()
+            g_before = _copy_c(gc)
+            want = wantf(g_before)
+            for rep in range(3):
+                got = vjp_c(gc)
+                if not _same_c(got, want):
+                    out["errors"].append({"kind": "container-graph", "program": nm, "error": "call %d of the same pull-back with the same cotangent returned %r, expected %r" % (rep + 1, got, want)})
+                    break
+            if not _same_c(gc, g_before):
+                out["errors"].append({"kind": "container-graph", "program": nm, "error": "the caller's cotangent was modified: %r" % (gc,)})
+        except Exception as ex:
+            out["errors"].append({"kind": "container-graph", "program": nm, "error": "raised %r" % (ex,)})
     # direct calls of autograd.util.toposort on explicit parent lists
     for i in range(cfg["n_topo"]):
         n = rng.randint(1, cfg["size"])
